@@ -10,7 +10,7 @@ import (
 // / did not offer interleaving; a DATA-class or FORWARD-class chunk of either kind is injected
 // with a new, duplicate or out-of-window TSN.  Exactly the wrong-kind cells must be answered
 // with a protocol-violation ABORT.
-func wrongKindScenario(localIL, peerIL bool, inject string, tsnKind string) *Scenario {
+func wrongKindScenario(localIL, peerIL bool, inject string, tsnKind string, peerNoIFwd ...bool) *Scenario {
 	return &Scenario{
 		Name:    "wrongkind",
 		Horizon: 60 * time.Second,
@@ -18,6 +18,7 @@ func wrongKindScenario(localIL, peerIL bool, inject string, tsnKind string) *Sce
 		Body: func(m *Sim) {
 			cfg := epCfg{Server: true, NoInterleave: !localIL, MTU: 228, RTOMax: 4000, InitTSN: 50}
 			p := newScripted(m, cfg, peerIL, false)
+			p.noIFwd = len(peerNoIFwd) > 0 && peerNoIFwd[0]
 			if !p.connectServer() {
 				m.Failf("e2.base", "handshake failed")
 				c03Teardown(m, p)
@@ -162,6 +163,15 @@ func c17EndToEnd(j *Job) {
 			}
 		}
 	}
+	// a peer that offers I-DATA without I-FORWARD-TSN: interleaving is negotiated all the same
+	// and a plain FORWARD-TSN / DATA is still the wrong kind
+	for _, l := range []bool{false, true} {
+		for _, inj := range []string{"DATA", "IDATA", "FWD"} {
+			for _, tk := range []string{"new", "dup", "far"} {
+				j.Explore(fmt.Sprintf("kind-noifwd/l%v/%s/%s", l, inj, tk), wrongKindScenario(l, true, inj, tk, true), Budget{}, nil)
+			}
+		}
+	}
 	// contiguity / fragment order on the wire with concurrent writers: all schedules with <= D deviations
 	for _, mode := range stdModes() {
 		mtu := uint32(100)
@@ -271,6 +281,34 @@ func twoInitScenario(srvIL, srvZC bool, first, second [2]bool, cksum bool) *Scen
 			}
 			if !seen {
 				m.Failf("twoinit.base", "no DATA emitted by the server")
+			}
+			// an abandoned message: the forward-TSN variant follows the second INIT too
+			if pr, err := a.OpenStream(4, PayloadTypeWebRTCBinary); err == nil {
+				m.streamsSeen = append(m.streamsSeen, pr)
+				pr.SetReliabilityParams(false, ReliabilityTypeRexmit, 0)
+				p.ackAll()
+				ev1 := len(m.W.events)
+				_, _ = pr.WriteSCTP(payload(4, 0, 40), PayloadTypeWebRTCBinary)
+				m.Sleep(3500 * time.Millisecond) // nothing is acknowledged: T3 abandons it
+				p.settle(0)
+				fwdSeen := false
+				for _, ev := range m.W.events[ev1:] {
+					if ev.Kind != "send" || ev.From != 0 || ev.Pkt.dec == nil {
+						continue
+					}
+					for _, c := range ev.Pkt.dec.Chunks {
+						if c.Typ != wFWDTSN && c.Typ != wIFWDTSN {
+							continue
+						}
+						fwdSeen = true
+						if (c.Typ == wIFWDTSN) != wantIL {
+							m.Failf("twoinit.kind.fwd", "server announces the abandoned message with %s towards a peer whose INIT (the second one) negotiated interleaving=%v", wTypeName(c.Typ), wantIL)
+						}
+					}
+				}
+				if !fwdSeen {
+					m.Failf("twoinit.base", "no forward-TSN chunk for the abandoned message")
+				}
 			}
 			m.Observe("il=%v zc=%v", a.useInterleaving, a.sendZeroChecksum)
 			c03Teardown(m, p)
